@@ -11,7 +11,10 @@ META = {
             "protocol id and every act arrived as sent, and then both hold the challenge of both nonces. Every behaviour of the "
             "specification is replayed on InitiateHandshake / AnswerHandshake / InitiatorAct2.Next / FinalizeHandshake through the "
             "real marshalling with scripted nonces, and on newAuthenticatedOutboundConnection / newAuthenticatedInboundConnection "
-            "over in-memory pipes with the harness rewriting envelopes in flight, comparing each step's verdict and every field sent.",
+            "over in-memory pipes with the harness rewriting envelopes in flight (and, for replays from ANY earlier session of a "
+            "node with no honest peer present - HandshakeSessions.tla, which needs the node's nonces to be pairwise distinct - "
+            "on 48-200 consecutive real sessions per process with the real random source: nonces pairwise distinct, recorded "
+            "acts 1+3 / act 2 replayed into 40-120 later sessions rejected), comparing each step's verdict and every field sent.",
     "note": "The acts alone carry no secret: with three coordinated alterations a man in the middle passes (MC_BareMitm shows it); the "
             "property is claimed for the acts under one attacker action per session and for the wire path under up to three. "
             "Trusted: SHA-256 is injective on the nonce pairs (checked on the values used), secp256k1 signatures are unforgeable "
@@ -43,6 +46,12 @@ def run(ctx):
     m = ctx.tlc(SPEC, "Handshake", cfg="MC_BareMitm", label="MC_BareMitm", expect=("violation",), dump_trace=False)
     ctx.extra["unsigned_acts_with_three_alterations"] = m.violated
 
+    # freshness across sessions of one node (replay of ANY earlier session, no honest peer present)
+    r = ctx.tlc(SPEC, "HandshakeSessions", cfg="MC_Sessions", coverage=True, label="MC_Sessions", timeout=ctx.pick(900, 3000))
+    ctx.require_coverage(r, ["HonestSession", "ReplayToResponder", "ReplayToInitiator"], "MC_Sessions")
+    st = ctx.tlc(SPEC, "HandshakeSessions", cfg="MC_SessionsStale", label="MC_SessionsStale", expect=("violation",), dump_trace=False)
+    ctx.extra["recurring_nonces_allow_replay"] = st.violated
+
     g = ctx.tlc(SPEC, "Gen_Handshake", cfg="Gen_Bare", workers=1, label="Gen_Bare", dump_trace=False, timeout=1500)
     bare = ctx.read_emitted(g, "behaviours.ndjson")
     g = ctx.tlc(SPEC, "Gen_Handshake", cfg="Gen_Wire", workers=1, label="Gen_Wire", dump_trace=False, timeout=1500)
@@ -58,17 +67,24 @@ def run(ctx):
         wa = [b for b in wire if attacked(b) and not flipped(b)]
         wn = [b for b in wire if not attacked(b)]
         wire = rnd.sample(wf, min(len(wf), 400)) + rnd.sample(wa, min(len(wa), 400)) + rnd.sample(wn, min(len(wn), 60))
-    go1 = ctx.gotest("pkg/net/security/handshake", "^TestVerif_C20_Acts$", ["c20_test.go"],
-                     inputs={"behaviours_bare.ndjson": bare}, label="acts", timeout=ctx.pick(900, 3000))
+    go1 = ctx.gotest("pkg/net/security/handshake", "^TestVerif_C20_(Acts|Freshness)$", ["c20_test.go"],
+                     inputs={"behaviours_bare.ndjson": bare}, label="acts", timeout=ctx.pick(900, 3000),
+                     env={"VERIF_SESSIONS": ctx.pick(48, 200), "VERIF_LATER_SESSIONS": ctx.pick(40, 120)})
     ctx.absorb(go1)
-    go2 = ctx.gotest("pkg/net/libp2p", "^TestVerif_C20_Wire$", ["c20_test.go"],
-                     inputs={"behaviours_wire.ndjson": wire}, label="wire", timeout=ctx.pick(1200, 3400))
+    go2 = ctx.gotest("pkg/net/libp2p", "^TestVerif_C20_Wire(Freshness)?$", ["c20_test.go"],
+                     inputs={"behaviours_wire.ndjson": wire}, label="wire", timeout=ctx.pick(1200, 3400),
+                     env={"VERIF_SESSIONS": ctx.pick(48, 200), "VERIF_LATER_SESSIONS": ctx.pick(40, 120)})
     ctx.absorb(go2)
     # every byte position of the challenge (and of the raw nonces) must have been flipped in flight
     need_chal = range(32) if ctx.thorough else (0, 7, 8, 15, 16, 23, 24, 31)
     need_nonce = range(8) if ctx.thorough else (0, 7)
     for name, go in (("acts", go1), ("wire", go2)):
         c = (go.reports.get(name) or {}).get("counters") or {}
+        if c.get("not_scriptable") or c.get("unrealizable_nonce_coincidence"):
+            ctx.note("%s: nonces could not be scripted through crypto/rand.Reader (%d behaviours not staged); the nonce source is "
+                     "judged by the freshness tests" % (name, c.get("not_scriptable", 0) + c.get("unrealizable_nonce_coincidence", 0)))
+            if c.get("not_scriptable"):
+                continue
         miss = ["challenge byte %d" % k for k in need_chal if not c.get("chal_byte_%d" % k)] + \
                ["nonce byte %d" % k for k in need_nonce if not c.get("nonce_byte_%d" % k)]
         if miss and not ctx.violations:
@@ -84,5 +100,7 @@ def run(ctx):
         assumptions=["the challenge hash is injective (checked on the nonce pairs used)",
                      "signatures cannot be forged: the attacker only signs with its own key or reuses recorded signatures",
                      "the acts without envelopes are claimed under one attacker action per session",
-                     "nonces are scripted by replacing crypto/rand.Reader for the duration of the test"],
+                     "nonces are scripted by replacing crypto/rand.Reader for the behaviour replay (if the code does not take them "
+                     "from there the acts harness binds the nonces as drawn and the wire behaviours are skipped with a note); the "
+                     "freshness tests use the real source"],
         exhaustive=ctx.thorough)
